@@ -39,7 +39,10 @@ def main():
     del argv[i:i + 2]
   man = json.load(open(os.path.join(VERIF, 'MANIFEST.json')))
   ids = [c['property_id'] for c in man['checks']]
-  sdir = os.path.join(VERIF, 'seeded')
+  harmless = '--harmless' in argv
+  if harmless:
+    argv.remove('--harmless')
+  sdir = os.path.join(VERIF, 'harmless' if harmless else 'seeded')
   seeds = sorted(d for d in os.listdir(sdir) if os.path.isfile(os.path.join(sdir, d, 'patch.diff')) and (not argv or d in argv))
   st = subprocess.run(['git', '-C', REPO, 'status', '--porcelain'], capture_output=True, text=True).stdout.strip()
   if st:
@@ -76,6 +79,12 @@ def main():
     for sd, own, caught, broken in rows:
       f.write('| %s | %s | %s | %s |\n' % (sd, own, '; '.join('%s: %s' % (k, ', '.join(v)) for k, v in sorted(caught.items())) or 'nothing' +
                                           (' (analysis error in %s)' % ','.join(sorted(broken)) if broken else ''), 'yes' if own in caught else 'no'))
+  if harmless:
+    alarms = [(sd, sorted(caught)) for sd, own, caught, broken in rows if caught]
+    undec = [(sd, sorted(broken)) for sd, own, caught, broken in rows if broken and not caught]
+    print('\n%d harmless refactorings: %d silent, %d FALSE ALARMS %s, %d analysis errors %s' % (
+        len(rows), sum(1 for r in rows if not r[2] and not r[3]), len(alarms), alarms, len(undec), undec))
+    return 0
   missed = [sd for sd, own, caught, broken in rows if not caught]
   print('\n%d seeds, %d caught by the check of their own property, %d by another check only, %d missed: %s' % (
       len(rows), sum(1 for r in rows if r[1] in r[2]), sum(1 for r in rows if r[2] and r[1] not in r[2]), len(missed), missed))
